@@ -120,6 +120,15 @@ def run(ctx):
         ok = check_circuit(ctx, circ, stream)
         if not ok:
             shrink_last(ctx, circ, stream)
+    # step-level tie of the executable join / elimination loop: every composite created along a forced schedule
+    for i in range(ctx.budget(60, 600)):
+        if ctx.time_left() < 0:
+            break
+        circ = gen.random_circuit(rng, ncomp_max=5 if ctx.tier == "quick" else 8, ports_max=4, kind=rng.choice(kinds),
+                                  p_link=rng.choice([0.5, 0.8]), p_expose=0.8)
+        if len(circ["comps"]) < 2:
+            continue
+        check_steps(ctx, circ, cs.random_schedule(len(circ["comps"]), rng))
     # resonant first pair: must raise (or be right), never return a wrong finite matrix
     circ = resonant_circuit(rng)
     ctx.case(gen.circuit_json(circ), tags=["stream:resonant"])
@@ -130,6 +139,39 @@ def run(ctx):
         ctx.tag("outcome:singular-raised" if out != "ok" else "outcome:non-finite")
     if ctx.tier == "thorough" or ctx.scale > 1:
         exhaustive_small(ctx)
+
+
+def check_steps(ctx, circ, sched):
+    """correspondence of `St.join` / `Solve.stepWith` (the functions of C01_join_sound / C01_solve_solves) with the real
+    `Structure.join` at every merge of a forced schedule: same surviving pins, same coefficient between every pair of them,
+    same members.  Compared by pin, never by position: the internal pin order is not observable."""
+    rep = {"circuit": gen.circuit_json(circ), "kind": "steps", "sched": [list(p) for p in sched]}
+    ctx.case(rep, tags=["stream:step-trace"])
+    oi, si, om, sm = cs.traced_solve(ctx, circ, sched)
+    if oi != "ok" or om != "ok":
+        if (oi == "singular") != (om == "singular") and not (oi == "ok" and om == "ok"):
+            ctx.tag(f"step-trace:outcomes:{oi}/{om}")
+        return True
+    if len(si) != len(sm):
+        ctx.disagreement("C01.model.steps", f"implementation created {len(si)} composites, the model {len(sm)} (schedule {sched})", rep)
+        return False
+    _, cond, _, _ = gen.reference_solve(circ)
+    tol = cs.TOL * max(1.0, cond) * 10
+    for t, ((pd, S, mem), (pins, Sm, memm)) in enumerate(zip(si, sm)):
+        if set(pd) != set(pins):
+            ctx.disagreement("C01.model.steps", f"merge {t}: surviving pins differ: implementation {sorted(pd)}, model {sorted(pins)}", rep)
+            return False
+        if mem != memm:
+            ctx.disagreement("C01.model.steps", f"merge {t}: members differ: implementation {mem}, model {memm}", rep)
+            return False
+        if pins:
+            ix = [pd[p] for p in pins]
+            d = float(np.max(np.abs(S[np.ix_(ix, ix)] - Sm)))
+            if not d <= tol:
+                ctx.disagreement("C01.model.steps", f"merge {t}: composite matrices differ by {d:.3e} (by pin pair)", rep)
+                return False
+        ctx.tag("step-trace:composites-compared")
+    return True
 
 
 def shrink_last(ctx, circ, stream):
@@ -186,6 +228,11 @@ def exhaustive_small(ctx):
 
 def replay(ctx, data):
     circ = gen.circuit_from_json(data["circuit"])
+    if data.get("kind") == "steps":
+        check_steps(ctx, circ, [tuple(p) for p in data["sched"]])
+        if ctx.disagreements:
+            return False, ctx.disagreements[0]["what"]
+        return True, "every composite of the forced schedule agrees with the model"
     ok = check_circuit(ctx, circ, data.get("kind", "regular"))
     if ctx.violations:
         return False, ctx.violations[0]["what"]
